@@ -1,5 +1,17 @@
-//! Relational contract model of teos::dbm::DBM (sqlite replaced by Vec-backed tables with PK/FK/cascade semantics).
-use std::cell::RefCell;
+//! Relational contract model of `teos::dbm::DBM` (compiled instead of teos/src/dbm.rs under cfg(kani)).
+//!
+//! sqlite is replaced by three fixed-capacity tables (capacity 4 rows each, no row shifting on deletion) with the
+//! constraints of the real schema: primary keys (users.user_id, appointments.UUID, trackers.UUID), foreign keys
+//! appointments.user_id -> users, trackers.UUID -> appointments, both ON DELETE CASCADE; `load_appointments` /
+//! `get_appointments_count` exclude appointments that have a tracker (LEFT JOIN ... IS NULL); the `<=` / `=` rule of
+//! `load_trackers_with_confirmation_status`. Method names and signatures are those of the real DBM.
+//!
+//! Errors: shape-compatible light version of `teos_common::dbm::Error` (the real one carries `rusqlite::Error`, whose
+//! drop glue makes CBMC explode once the discriminant is symbolic).
+//!
+//! The tables live in a typed `static` (one model database per harness): keeping them inside the `Arc<Mutex<DBM>>` heap
+//! object makes CBMC treat every access as byte extraction from an untyped allocation (measured: 8M variables / 50M
+//! clauses for one row read; with a static: 57k variables).
 use std::path::PathBuf;
 
 use bitcoin::secp256k1::SecretKey;
@@ -13,28 +25,63 @@ use crate::gatekeeper::UserInfo;
 use crate::responder::{ConfirmationStatus, PenaltySummary, TransactionTracker};
 use crate::verif_collections::HashMap;
 
-/// Shape-compatible light version of teos_common::dbm::Error (the real one carries rusqlite::Error, whose drop glue explodes).
 #[derive(Debug)]
-pub enum Error { AlreadyExists, MissingForeignKey, MissingField, NotFound, Unknown(()) }
+pub enum Error {
+    AlreadyExists,
+    MissingForeignKey,
+    MissingField,
+    NotFound,
+    Unknown(()),
+}
 
 #[derive(Debug)]
 pub struct Tables {
-    pub users: Vec<(UserId, UserInfo)>,
-    pub appointments: Vec<(UUID, ExtendedAppointment)>,
-    pub trackers: Vec<(UUID, TransactionTracker)>,
+    pub users: HashMap<UserId, UserInfo>,
+    pub appointments: HashMap<UUID, ExtendedAppointment>,
+    pub trackers: HashMap<UUID, TransactionTracker>,
     pub last_known_block: Option<BlockHash>,
-    pub keys: Vec<SecretKey>,
+    pub key: Option<SecretKey>,
+    /// Number of calls of the writing methods (harness observability: "no write happened").
+    pub writes: u32,
 }
 
-impl Default for Tables {
+impl Tables {
+    pub const EMPTY: Tables = Tables {
+        users: HashMap::new_const(),
+        appointments: HashMap::new_const(),
+        trackers: HashMap::new_const(),
+        last_known_block: None,
+        key: None,
+        writes: 0,
+    };
+}
+
+pub static mut TABLES: Tables = Tables::EMPTY;
+
+#[derive(Debug)]
+pub struct DBM {
+    _handle: u8,
+}
+
+impl Default for DBM {
     fn default() -> Self {
-        Tables { users: Vec::with_capacity(4), appointments: Vec::with_capacity(4), trackers: Vec::with_capacity(4), last_known_block: None, keys: Vec::with_capacity(2) }
+        DBM { _handle: 0 }
     }
 }
 
-#[derive(Debug, Default)]
-pub struct DBM {
-    pub t: RefCell<Tables>,
+fn t() -> &'static Tables {
+    unsafe { &*std::ptr::addr_of!(TABLES) }
+}
+fn tm() -> &'static mut Tables {
+    let r = unsafe { &mut *std::ptr::addr_of_mut!(TABLES) };
+    r.writes = r.writes.wrapping_add(1);
+    r
+}
+
+fn cascade(t: &mut Tables) {
+    let Tables { users, appointments, trackers, .. } = t;
+    appointments.retain(|_, a| users.contains_key(&a.user_id));
+    trackers.retain(|u, _| appointments.contains_key(u));
 }
 
 impl DBM {
@@ -43,186 +90,178 @@ impl DBM {
     }
 
     pub(crate) fn store_user(&self, user_id: UserId, user_info: &UserInfo) -> Result<(), Error> {
-        let mut t = self.t.borrow_mut();
-        if t.users.iter().any(|(u, _)| *u == user_id) {
+        let t = tm();
+        if t.users.contains_key(&user_id) {
             return Err(Error::AlreadyExists);
         }
-        t.users.push((user_id, *user_info));
+        t.users.insert(user_id, *user_info);
         Ok(())
     }
 
     pub(crate) fn update_user(&self, user_id: UserId, user_info: &UserInfo) {
-        let mut t = self.t.borrow_mut();
-        for (u, i) in t.users.iter_mut() {
-            if *u == user_id {
-                *i = *user_info;
-            }
+        let t = tm();
+        if let Some(i) = t.users.get_mut(&user_id) {
+            *i = *user_info;
         }
     }
 
     pub(crate) fn load_user_locators(&self, user_id: UserId) -> Vec<Locator> {
-        let t = self.t.borrow();
+        let t = t();
         t.appointments.iter().filter(|(_, a)| a.user_id == user_id).map(|(_, a)| a.locator()).collect()
     }
 
     pub(crate) fn load_all_users(&self) -> HashMap<UserId, UserInfo> {
-        let t = self.t.borrow();
-        t.users.iter().cloned().collect()
-    }
-
-    fn cascade(t: &mut Tables) {
-        let users: Vec<UserId> = t.users.iter().map(|(u, _)| *u).collect();
-        t.appointments.retain(|(_, a)| users.contains(&a.user_id));
-        let uuids: Vec<UUID> = t.appointments.iter().map(|(u, _)| *u).collect();
-        t.trackers.retain(|(u, _)| uuids.contains(u));
+        t().users.clone()
     }
 
     pub(crate) fn batch_remove_users(&mut self, users: &[UserId]) -> usize {
-        let mut t = self.t.borrow_mut();
-        t.users.retain(|(u, _)| !users.contains(u));
-        Self::cascade(&mut t);
+        let t = tm();
+        t.users.retain(|u, _| !users.contains(u));
+        cascade(t);
         1
     }
 
     pub(crate) fn get_appointments_count(&self) -> usize {
-        let t = self.t.borrow();
-        t.appointments.iter().filter(|(u, _)| !t.trackers.iter().any(|(x, _)| x == u)).count()
+        let t = t();
+        t.appointments.iter().filter(|(u, _)| !t.trackers.contains_key(*u)).count()
     }
 
     pub(crate) fn get_trackers_count(&self) -> usize {
-        self.t.borrow().trackers.len()
+        t().trackers.len()
     }
 
     pub(crate) fn store_appointment(&self, uuid: UUID, appointment: &ExtendedAppointment) -> Result<(), Error> {
-        let mut t = self.t.borrow_mut();
-        if t.appointments.iter().any(|(u, _)| *u == uuid) {
+        let t = tm();
+        if t.appointments.contains_key(&uuid) {
             return Err(Error::AlreadyExists);
         }
-        if !t.users.iter().any(|(u, _)| *u == appointment.user_id) {
+        if !t.users.contains_key(&appointment.user_id) {
             return Err(Error::MissingForeignKey);
         }
-        t.appointments.push((uuid, appointment.clone()));
+        t.appointments.insert(uuid, appointment.clone());
         Ok(())
     }
 
     pub(crate) fn update_appointment(&self, uuid: UUID, appointment: &ExtendedAppointment) -> Result<(), Error> {
-        let mut t = self.t.borrow_mut();
-        for (u, a) in t.appointments.iter_mut() {
-            if *u == uuid {
+        let t = tm();
+        match t.appointments.get_mut(&uuid) {
+            Some(a) => {
+                // the four updatable columns of the real UPDATE statement
                 a.inner.encrypted_blob = appointment.inner.encrypted_blob.clone();
                 a.inner.to_self_delay = appointment.inner.to_self_delay;
                 a.user_signature = appointment.user_signature.clone();
                 a.start_block = appointment.start_block;
-                return Ok(());
+                Ok(())
             }
+            None => Err(Error::NotFound),
         }
-        Err(Error::NotFound)
     }
 
     pub(crate) fn load_appointment(&self, uuid: UUID) -> Option<ExtendedAppointment> {
-        let t = self.t.borrow();
-        t.appointments.iter().find(|(u, _)| *u == uuid).map(|(_, a)| a.clone())
+        t().appointments.get(&uuid).cloned()
     }
 
     pub(crate) fn appointment_exists(&self, uuid: UUID) -> bool {
-        self.t.borrow().appointments.iter().any(|(u, _)| *u == uuid)
+        t().appointments.contains_key(&uuid)
     }
 
     pub(crate) fn load_appointments(&self, locator: Option<Locator>) -> HashMap<UUID, ExtendedAppointment> {
-        let t = self.t.borrow();
+        let t = t();
         t.appointments
             .iter()
-            .filter(|(u, a)| !t.trackers.iter().any(|(x, _)| x == u) && locator.map_or(true, |l| a.locator() == l))
-            .cloned()
+            .filter(|(u, a)| !t.trackers.contains_key(*u) && locator.map_or(true, |l| a.locator() == l))
+            .map(|(u, a)| (*u, a.clone()))
             .collect()
     }
 
     pub(crate) fn get_appointment_length(&self, uuid: UUID) -> Option<usize> {
-        let t = self.t.borrow();
-        t.appointments.iter().find(|(u, _)| *u == uuid).map(|(_, a)| a.inner.encrypted_blob.len())
+        t().appointments.get(&uuid).map(|a| a.inner.encrypted_blob.len())
     }
 
     pub(crate) fn get_appointment_user_and_length(&self, uuid: UUID) -> Option<(UserId, usize)> {
-        let t = self.t.borrow();
-        t.appointments.iter().find(|(u, _)| *u == uuid).map(|(_, a)| (a.user_id, a.inner.encrypted_blob.len()))
+        t().appointments.get(&uuid).map(|a| (a.user_id, a.inner.encrypted_blob.len()))
     }
 
     pub(crate) fn remove_appointment(&self, uuid: UUID) {
-        let mut t = self.t.borrow_mut();
-        t.appointments.retain(|(u, _)| *u != uuid);
-        Self::cascade(&mut t);
+        let t = tm();
+        t.appointments.remove(&uuid);
+        cascade(t);
     }
 
-    pub(crate) fn batch_remove_appointments(&mut self, appointments: &[UUID], updated_users: &HashMap<UserId, UserInfo>) -> usize {
-        let mut t = self.t.borrow_mut();
-        t.appointments.retain(|(u, _)| !appointments.contains(u));
-        Self::cascade(&mut t);
+    pub(crate) fn batch_remove_appointments(
+        &mut self,
+        appointments: &[UUID],
+        updated_users: &HashMap<UserId, UserInfo>,
+    ) -> usize {
+        let t = tm();
+        t.appointments.retain(|u, _| !appointments.contains(u));
+        cascade(t);
         for (id, info) in updated_users.iter() {
-            for (u, i) in t.users.iter_mut() {
-                if u == id {
-                    i.available_slots = info.available_slots;
-                }
+            if let Some(i) = t.users.get_mut(id) {
+                // UPDATE users SET available_slots=(?1) WHERE user_id=(?2)
+                i.available_slots = info.available_slots;
             }
         }
         1
     }
 
     pub(crate) fn load_uuids(&self, locator: Locator) -> Vec<UUID> {
-        let t = self.t.borrow();
-        t.appointments.iter().filter(|(_, a)| a.locator() == locator).map(|(u, _)| *u).collect()
+        t().appointments.iter().filter(|(_, a)| a.locator() == locator).map(|(u, _)| *u).collect()
     }
 
     pub(crate) fn batch_check_locators_exist(&self, locators: Vec<&Locator>) -> Vec<Locator> {
-        let t = self.t.borrow();
-        t.appointments.iter().filter(|(_, a)| locators.iter().any(|l| **l == a.locator())).map(|(_, a)| a.locator()).collect()
+        t().appointments
+            .iter()
+            .filter(|(_, a)| locators.iter().any(|l| **l == a.locator()))
+            .map(|(_, a)| a.locator())
+            .collect()
     }
 
     pub(crate) fn store_tracker(&self, uuid: UUID, tracker: &TransactionTracker) -> Result<(), Error> {
         tracker.status.to_db_data().ok_or(Error::MissingField)?;
-        let mut t = self.t.borrow_mut();
-        if t.trackers.iter().any(|(u, _)| *u == uuid) {
+        let t = tm();
+        if t.trackers.contains_key(&uuid) {
             return Err(Error::AlreadyExists);
         }
-        if !t.appointments.iter().any(|(u, _)| *u == uuid) {
+        if !t.appointments.contains_key(&uuid) {
             return Err(Error::MissingForeignKey);
         }
-        t.trackers.push((uuid, tracker.clone()));
+        t.trackers.insert(uuid, tracker.clone());
         Ok(())
     }
 
     pub(crate) fn update_tracker_status(&self, uuid: UUID, status: &ConfirmationStatus) -> Result<(), Error> {
         let (h, c) = status.to_db_data().ok_or(Error::MissingField)?;
-        let mut t = self.t.borrow_mut();
-        for (u, tr) in t.trackers.iter_mut() {
-            if *u == uuid {
+        let t = tm();
+        match t.trackers.get_mut(&uuid) {
+            Some(tr) => {
                 tr.status = ConfirmationStatus::from_db_data(h, c);
-                return Ok(());
+                Ok(())
             }
+            None => Err(Error::NotFound),
         }
-        Err(Error::NotFound)
     }
 
     pub(crate) fn load_tracker(&self, uuid: UUID) -> Option<TransactionTracker> {
-        let t = self.t.borrow();
-        t.trackers.iter().find(|(u, _)| *u == uuid).map(|(_, tr)| tr.clone())
+        t().trackers.get(&uuid).cloned()
     }
 
     pub(crate) fn tracker_exists(&self, uuid: UUID) -> bool {
-        self.t.borrow().trackers.iter().any(|(u, _)| *u == uuid)
+        t().trackers.contains_key(&uuid)
     }
 
     pub(crate) fn load_trackers(&self, locator: Option<Locator>) -> HashMap<UUID, TransactionTracker> {
-        let t = self.t.borrow();
+        let t = t();
         t.trackers
             .iter()
-            .filter(|(u, _)| locator.map_or(true, |l| t.appointments.iter().any(|(x, a)| x == u && a.locator() == l)))
-            .cloned()
+            .filter(|(u, _)| locator.map_or(true, |l| t.appointments.get(*u).map_or(false, |a| a.locator() == l)))
+            .map(|(u, tr)| (*u, tr.clone()))
             .collect()
     }
 
     pub(crate) fn load_trackers_with_confirmation_status(&self, status: ConfirmationStatus) -> Result<Vec<UUID>, Error> {
         let (height, confirmed) = status.to_db_data().ok_or(Error::MissingField)?;
-        let t = self.t.borrow();
+        let t = t();
         Ok(t.trackers
             .iter()
             .filter(|(_, tr)| match tr.status.to_db_data() {
@@ -234,25 +273,45 @@ impl DBM {
     }
 
     pub(crate) fn load_penalties_summaries(&self) -> HashMap<UUID, PenaltySummary> {
-        let t = self.t.borrow();
-        t.trackers.iter().map(|(u, tr)| (*u, PenaltySummary::new(tr.penalty_tx.compute_txid(), tr.status))).collect()
+        t().trackers.iter().map(|(u, tr)| (*u, PenaltySummary::new(tr.penalty_tx.compute_txid(), tr.status))).collect()
     }
 
     pub(crate) fn store_last_known_block(&self, block_hash: &BlockHash) -> Result<(), Error> {
-        self.t.borrow_mut().last_known_block = Some(*block_hash);
+        tm().last_known_block = Some(*block_hash);
         Ok(())
     }
 
     pub fn load_last_known_block(&self) -> Option<BlockHash> {
-        self.t.borrow().last_known_block
+        t().last_known_block
     }
 
     pub fn store_tower_key(&self, sk: &SecretKey) -> Result<(), Error> {
-        self.t.borrow_mut().keys.push(*sk);
+        tm().key = Some(*sk);
         Ok(())
     }
 
     pub fn load_tower_key(&self) -> Option<SecretKey> {
-        self.t.borrow().keys.last().cloned()
+        t().key
+    }
+
+    // ---- harness access (pre-state construction and observation; not part of the real API)
+    pub(crate) fn verif_user(&self, user_id: UserId) -> Option<UserInfo> {
+        t().users.get(&user_id).cloned()
+    }
+    pub(crate) fn verif_push_appointment(&self, uuid: UUID, a: ExtendedAppointment) {
+        let t = tm();
+        t.appointments.insert(uuid, a);
+        t.writes -= 1;
+    }
+    pub(crate) fn verif_push_tracker(&self, uuid: UUID, tr: TransactionTracker) {
+        let t = tm();
+        t.trackers.insert(uuid, tr);
+        t.writes -= 1;
+    }
+    pub(crate) fn verif_writes(&self) -> u32 {
+        t().writes
+    }
+    pub(crate) fn verif_tracker_status(&self, uuid: UUID) -> Option<ConfirmationStatus> {
+        t().trackers.get(&uuid).map(|tr| tr.status)
     }
 }
